@@ -65,6 +65,8 @@ type FnCtx struct {
 	Ends    int
 	panicOnly bool
 	setLib  bool
+	countLib bool
+	lamCache map[string]Term
 	wordAx  map[string]bool
 }
 
@@ -357,7 +359,7 @@ func zeroVal(t types.Type) Val {
 }
 
 func sortedKeys(m map[string]bool) []string {
-	var ks []string
+	ks := []string{}
 	for k := range m {
 		ks = append(ks, k)
 	}
